@@ -32,6 +32,10 @@ CLAIMED = {
   text="Bounded symbolic execution of the real gRPC adapter/emitter (AsStreamProcessorFactory, adapter.Header/Data, emitter.Message, gunzip/deflate, with bytes.Buffer and encoding/binary from SSA) on message sequences with symbolic payload bytes and compressed flags, under every grpc-encoding, for every set of cut points of the length-prefixed byte stream into DATA frames (exhaustive within the bound), END_STREAM on the last data frame or a separate empty one, both directions. An independent byte-level parser in the harness checks that the recording pass-through processor saw exactly the decompressed messages with end-of-stream once and last, and that the destination sink received the same messages in the same wire format and encoding with END_STREAM exactly once after the last message; non-gRPC streams must pass byte for byte.",
   note="Bounds: <=2 messages of <=1 byte in <=3 frames (quick), <=3 messages of <=2 bytes in <=3 frames (thorough). gzip/deflate/snappy are an injective tagged-framing codec model in the engine (stream and block snappy are different codecs); native replay of counterexamples uses the real codecs. Hook: overlay-only constructor h2.VerifNewProcessors. Trusted: go/ssa, symgo, z3.",
   ref="DESIGN.md section 6, C11"),
+ "C14": dict(
+  text="Bounded symbolic execution of the real spec stack (httpspec.NewStack, removeHopByHopHeaders, ViaModifier, forwarded and bad-framing modifiers, fifo.Group; strings/net/textproto canonicalisation from SSA) on messages whose Connection list elements are fully symbolic strings: z3 chooses letter case, surrounding whitespace and non-token bytes, and the oracle is the direct statement of the property (a header survives, untouched, iff it is not in the fixed hop-by-hop list and not named case-insensitively by any Connection element). Via chains over several header lines with any entry naming this instance must be detected (error, round trip skipped, 400) or extended by exactly one entry after all existing ones; X-Forwarded-* append/preserve; conflicting Content-Length (symbolic digits) or a Transfer-Encoding not ending in chunked must be flagged by the stack.",
+  note="Bounds: one fully symbolic Connection element of 2..3 (quick) / 2..4 (thorough) bytes combined with concrete partners over 1..2 header lines (thorough: two symbolic elements); Via 0..2 lines x 1..2 entries from 3 entry shapes; X-Forwarded-For 0..2 lines; Content-Length 0..2 lines of 1..2 symbolic digits; 4 Transfer-Encoding shapes. regexp [\\t ]+ Split is an engine model. Trusted: go/ssa, symgo, z3.",
+  ref="DESIGN.md section 6, C14"),
 }
 
 NOT_YET = "check not built yet in this round; planned with the same technique (DESIGN.md section 6)"
